@@ -10,8 +10,10 @@
 (*    symbols it runs BACKWARDS when the second symbol fills inside the chunk;    *)
 (*  - the minute loop (and the per-minute add_candle) only runs when the chunk    *)
 (*    aggregate selected at least one order (environment: hasOrders);             *)
-(*  - a trailing chunk shorter than `chunk` makes generate_candle_from_one_minutes*)
-(*    raise ValueError (named action RaiseShortWindow; a C12 finding).            *)
+(*  - a trailing chunk shorter than `chunk` is matched without closing a candle or *)
+(*    running a strategy (repaired in f8ad570d; before that the full step was     *)
+(*    passed on and generate_candle_from_one_minutes raised ValueError - kept as   *)
+(*    the seedable fault PartialChunkRaises / action RaiseShortWindow).           *)
 (*                                                                              *)
 (* Property: the fast simulator is causal at CHUNK granularity (C01: "t on a      *)
 (* trading-candle boundary"; every trading timeframe is a multiple of the chunk): *)
@@ -25,7 +27,8 @@ CONSTANTS RouteTFs,   \* minutes of every route (trading and data), stand-ins fr
           RouteTF,    \* the trading timeframe (member of RouteTFs)
           N, W, NSym, MaxFills,
           ChunkSkew,  \* 0; 1 = the chunk slice reaches one candle into the next chunk
-          GenSkew     \* 0; 1 = the generate slice is shifted by one
+          GenSkew,    \* 0; 1 = the generate slice is shifted by one
+          PartialChunkRaises  \* FALSE = the code (current_step = min(step, length - i)); TRUE = the defect fixed by f8ad570d
 
 VARIABLES i, pc, sym, k, fills, m1, tf, clock, maxRead, matched, obs, status
 vars == <<i, pc, sym, k, fills, m1, tf, clock, maxRead, matched, obs, status>>
@@ -49,6 +52,7 @@ WarmTF(T)    == [w \in 1..(W \div T) |-> [ts |-> -W + (w - 1) * T, src |-> Full(
 \* python slice candles[a:b] on a series of N rows: the indices actually read
 SliceLo(a) == Max2(a, 0)
 SliceHi(b) == Min2(b, N) - 1
+EffStep == IF PartialChunkRaises THEN Step ELSE Min2(Step, N - i)     \* current_step in _skip_simulator
 ChunkLo == i
 ChunkHi == SliceHi(i + Step + ChunkSkew)
 ChunkLen == ChunkHi - ChunkLo + 1
@@ -107,27 +111,27 @@ Bulk == /\ pc = "bulk"
         /\ UNCHANGED <<i, sym, k, fills, tf, maxRead, status>>
 
 \* l.873-894: if (i + candles_step) % count == 0: generate_candle_from_one_minutes(tf, candles[i - count + step : i + step])
-Due(T)   == (i + Step) % T = 0
-GLo(T)   == SliceLo(i - T + Step + GenSkew)
-GHi(T)   == SliceHi(i + Step + GenSkew)
+Due(T)   == (i + EffStep) % T = 0
+GLo(T)   == SliceLo(i - T + EffStep + GenSkew)
+GHi(T)   == SliceHi(i + EffStep + GenSkew)
 Short(T) == GHi(T) - GLo(T) + 1 # T
 GenerateF ==
   /\ pc = "gen" /\ ~\E T \in TFs : Due(T) /\ Short(T)
   /\ LET due == {T \in TFs : Due(T)} IN
      /\ tf' = [tf EXCEPT ![sym] = [T \in TFs |->
                  IF T \in due THEN UpsertTF(tf[sym][T], [ts |-> GLo(T), src |-> Full(GLo(T), GHi(T))]) ELSE tf[sym][T]]]
-     /\ maxRead' = IF due = {} THEN maxRead ELSE Max2(maxRead, i + Step + GenSkew - 1)
+     /\ maxRead' = IF due = {} THEN maxRead ELSE Max2(maxRead, i + EffStep + GenSkew - 1)
   /\ IF sym < NSym THEN sym' = sym + 1 /\ pc' = "sim" ELSE pc' = "routes" /\ UNCHANGED sym
   /\ obs' = "none"
   /\ UNCHANGED <<i, k, fills, m1, clock, matched, status>>
-\* quirk: trailing chunk shorter than the chunk size -> "Sent only n candles but T is required"
+\* former defect (PartialChunkRaises): trailing chunk shorter than the chunk size -> "Sent only n candles but T is required"
 RaiseShortWindow ==
   /\ pc = "gen" /\ \E T \in TFs : Due(T) /\ Short(T)
   /\ status' = "ValueError" /\ pc' = "dead" /\ obs' = "none"
   /\ UNCHANGED <<i, sym, k, fills, m1, tf, clock, maxRead, matched>>
 
 \* _execute_routes(i, step) then _execute_market_orders
-RouteDue == RouteTF = 1 \/ (i + Step) % RouteTF = 0
+RouteDue == RouteTF = 1 \/ (i + EffStep) % RouteTF = 0
 RunRoutesF == /\ pc = "routes"
               /\ obs' = (IF RouteDue THEN "step" ELSE "none")
               /\ i' = i + Step /\ pc' = "chunk"
